@@ -122,6 +122,17 @@ def check_1d(case):
             if np.any(sv[:fa] != 0) or np.any(sv[fa + p + 1:] != 0):
                 probs.append(("single_ev:support", "single_ev non-zero outside the p+1 active functions at u=%r" % u))
             _cmp("single_ev", sv, row, probs, u, key="single_ev:value", rtol=1e-12)
+        # results of earlier calls stay what they were: keep the tables of all scalar calls, call again at the other
+        # points, then compare the kept tables once more (a result that aliases a reused buffer changes under our feet)
+        kept = [(u, np.asarray(bspline_cy.active_deriv(kv, float(u), nd)), bspline.active_ev(kv, float(u))) for u in pts]
+        for (u, tab, ev), (fa, arr) in zip(kept, refs):
+            ok = tab.shape == (nd + 1, p + 1) and all(
+                np.abs(tab[k] - arr[k]).max() <= RTOL * max(np.abs(arr[k]).max(), 1e-300) for k in range(min(nd, p) + 1))
+            ok = ok and np.abs(np.asarray(ev) - arr[0]).max() <= RTOL
+            if not ok:
+                probs.append(("active_deriv:result-aliased", "the table returned by active_deriv/active_ev at u=%r changed after later calls "
+                              "at other points (results share a buffer)" % (u,)))
+                break
         # array argument forms
         P = np.array(pts)
         strided = np.repeat(P, 2)[::2]
